@@ -50,6 +50,14 @@ ASSUMPTIONS = [
     "average_quantizer the output equals the stock layer exactly",
     "average_quantizer only from data-independent quantizers (it is applied to "
     "a python scalar)",
+    "perturbation test of the oracle itself: for every passing case with two "
+    "different quantizers the reference is recomputed with the two swapped and "
+    "must differ from the unswapped reference (label perturb_sensitive, "
+    "required > 0; perturb_insensitive counts cases whose data cannot tell "
+    "the two orders apart); on a mismatch the same machinery names the single "
+    "deviation (unquantized / swapped / quantized twice / replaced weight / "
+    "skipped activation) that reproduces the layer bit for bit (signature key "
+    "'explains')",
     "stochastic quantizers and dropout are not generated (C08 owns them)",
     "QConv2DTranspose is excluded: it cannot be called in this image "
     "(tensorflow.python.ops.array_ops.stack no longer exists in TF 2.21); the "
